@@ -205,4 +205,6 @@ func runC01(e *Engine, r *Report) {
 	borrow(e, r, "C06", "GD-readindex-accept", "GD-confirm", "GD-confirm-prefix", "WMC-ready-producer")
 	borrow(e, r, "C11", "LS-usersm", "GD-destroyed")
 	borrow(e, r, "C12", "PAIR-pool")
+	borrow(e, r, "C05", "DEP-dedup", "GD-session", "MPT-session-record")
+	borrow(e, r, "C03", "TBL-state-compare", "GD-vote-grant", "GD-leader")
 }
